@@ -470,6 +470,7 @@ def _base_record(job, u, sstore, r0, rtips0, shal0):
     return {
         "tid": job["tid"], "U": L.universe_json(u), "op": job["op"], "snd": "d", "rcv": "d",
         "sstore": _objs(sstore), "srefs": _objs(set(_sender_refs(job).values())),
+        "sshal": [L.jobj(("c", i)) for i in sorted(job.get("sshal") or ())],
         "r0": list(r0), "rtips0": list(rtips0), "shal0": list(shal0), "depth": int(job.get("depth") or 0),
         "r1": [], "rtips1": [], "shal1": [], "runk": 0, "idbad": 0, "gitok": 2,
         "wants": [list(w) for w in job["wants"]], "forged": int(job.get("forged", 0)),
@@ -496,12 +497,29 @@ def _run_job(job):
     os.makedirs(root)
     try:
         srefs = _sender_refs(job)
-        sstore = set(u.objects()) if job.get("full") else L.closure(u, srefs.values())
+        sshal = {("c", i) for i in job.get("sshal") or ()}
+        if sshal:           # the sender is itself a shallow clone: nothing below the parents of these commits
+            sstore, todo = set(), [tuple(v) for v in srefs.values()]
+            while todo:
+                o = todo.pop()
+                if o not in sstore:
+                    sstore.add(o)
+                    todo.extend(k for k in L.kids(u, o) if not (o in sshal and k[0] == "c"))
+        else:
+            sstore = set(u.objects()) if job.get("full") else L.closure(u, srefs.values())
         rrefs = _receiver_refs(job)
         r0 = L.closure(u, rrefs.values())
         spath, rpath = os.path.join(root, "s"), os.path.join(root, "r")
         L.materialise(spath, u, sstore, srefs)
         _layout(spath, job.get("slayout", "loose"))
+        # sender-side state that must not change what a receiver gets: .git/shallow, info/grafts
+        if sshal:
+            with open(os.path.join(spath, "shallow"), "w") as f:
+                f.write("".join(u.sha[o] + "\n" for o in sorted(sshal)))
+        if job.get("sgrafts"):
+            with open(os.path.join(spath, "info", "grafts"), "w") as f:
+                for c, ps in job["sgrafts"]:
+                    f.write(" ".join([u.sha[("c", c)]] + [u.sha[("c", q)] for q in ps]) + "\n")
         if job["op"] != "clone":
             L.materialise(rpath, u, r0, rrefs, head="refs/heads/master" if job.get("rhead_unborn") else None)
             _layout(rpath, job.get("rlayout", "loose"))
